@@ -12,7 +12,9 @@ MANIFEST = {
                   "sizes or time: the byte-wise countl_zero loop returns exactly the highest bit in which two ids differ (and nothing "
                   "for the local id); after any history the local id is not held, no bucket exceeds 16, every contact sits in the "
                   "bucket of its highest differing bit, ids are unique over the whole table and every held contact carries the "
-                  "address/expiry of the last registration of its id (exactly one entry right after a (re-)registration); every "
+                  "address/expiry of the last registration of its id (exactly one entry right after a (re-)registration); a "
+                  "registration costs no other unexpired contact its place except the front entry of a bucket already holding 16 "
+                  "unexpired contacts when the id is new (a refresh evicts nobody); every "
                   "closest-peer query returns min(k,n) unexpired held contacts in strictly increasing 256-bit XOR distance with "
                   "everything left out strictly farther; that specification admits at most one answer, and any sorted permutation "
                   "of the candidates equals the model's (std::sort's instability cannot matter). The model is tied to the code by "
@@ -317,8 +319,46 @@ def shape_mixed(h: Hist, big: bool):
             h.ops.append("buckets")
 
 
+def shape_fullrefresh(h: Hist, big: bool):
+    """exactly full bucket (16), then re-register member i for every position i (a refresh must evict
+    nobody), interleaved with new ids (the only legal eviction: front of the full bucket), expiries, sweeps"""
+    rng = h.rng
+    idx = rng.choice([4, 5, 6, 7, 8, 12, 20, 31, 100, 200, 254, 255])
+    toks = []
+    while len(toks) < 16:
+        t = h.in_bucket(idx, low_random=rng.random() < 0.5)
+        if t not in toks:
+            toks.append(t)
+    short = set(rng.sample(range(16), rng.choice([0, 0, 1, 3])))
+    for k, t in enumerate(toks):
+        h.reg(t, (8 * SECOND if k in short else rng.choice([60 * SECOND, 120 * SECOND, 3600 * SECOND])))
+    h.ops.append("buckets")
+    order = list(range(16))
+    if rng.random() < 0.5:
+        rng.shuffle(order)
+    for n, i in enumerate(order):
+        if rng.random() < 0.3:
+            h.add(toks[i], rng.choice([30, 60, 120]))
+        else:
+            h.reg(toks[i], rng.choice([60 * SECOND, 90 * SECOND, 3600 * SECOND]))
+        r = rng.random()
+        if r < 0.12 and (1 << idx) > 40:
+            t = h.in_bucket(idx)                      # a new id: the front entry may go, nobody else
+            if t not in toks:
+                h.reg(t, 60 * SECOND)
+        elif r < 0.22:
+            h.closest(rng.choice([16, 17, 1000]))
+        elif r < 0.28:
+            h.adv_to_deadline()
+        elif r < 0.33:
+            h.ops.append(rng.choice(["sweep", "buckets"]))
+    h.ops.append("buckets")
+    h.closest(1000)
+
+
 SHAPES = [("prefix", shape_prefix, 2), ("overflow", shape_overflow, 3), ("refresh", shape_refresh, 2),
-          ("expiry", shape_expiry, 2), ("mixed", shape_mixed, 4)]
+          ("expiry", shape_expiry, 2), ("mixed", shape_mixed, 4),
+          ("fullrefresh", shape_fullrefresh, 2)]
 
 
 def gen_case(rng, big: bool) -> Case:
